@@ -75,3 +75,20 @@ package connector
 //verif:ensures[released-even-on-error] called("DestinationPlugin.Teardown") ==> d.plugin == nil && d.Instance.connector == nil && stored("plugin") && stored("connector")
 //verif:ensures[persister-told] called("DestinationPlugin.Teardown") && d.Instance.ProvisionedBy != ProvisionTypeDLQ ==> called("(*Persister).ConnectorStopped")
 
+
+// ---- C03: restart links -------------------------------------------------------------
+// A source is (re)opened with exactly the position held in its instance state.
+//verif:func (*Source).state(s) (st)
+//verif:requires s.Instance.State != nil ==> typeis(s.Instance.State, "connector.SourceState")
+//verif:ensures[stored-state] s.Instance.State != nil ==> iface(st) == s.Instance.State
+//verif:ensures[empty-when-none] s.Instance.State == nil ==> len(st.Position) == 0
+//verif:modifies nothing
+
+//verif:func (*Source).open(s, ctx) (err)
+//verif:requires s.Instance.State != nil ==> typeis(s.Instance.State, "connector.SourceState")
+//verif:call[open-at-stored-position] SourcePlugin.Open requires arg1.Position == result_of("(*Source).state", 0).Position && called("(*Source).state")
+
+// The closure Ack registers with the persister reports the flush for THIS ack's
+// sequence number (captured when the ack was queued).
+//verif:closure of (*Source).Ack calling (*Source).onPersistFlushed (s, seq, err)
+//verif:call[flush-reported-for-this-ack] (*Source).onPersistFlushed requires arg1 == deref(seq) && arg2 == err
